@@ -59,10 +59,18 @@ Record fcase := mkFcase {
    3 printed text differs                4 printed text does not parse back to the same filter
    5 evaluation differs from the DOCUMENTED semantics (Sem.Documented)   6 evaluation errors
    7 accepted although not a sentence of the DOCUMENTED grammar (comment, or a quoted string in
-     the place of a keyword / punctuation mark) *)
+     the place of a keyword / punctuation mark)
+   8 the MEANING of the text differs: what the implementation's evaluator answered is not what the
+     model's evaluator answers on the model's parse of the same text (equal to 2 as long as both
+     parsers agree; catches a parser that reads another filter out of the text) *)
 Definition fcheck (c : fcase) : list nat :=
   let m := parse_default (f_src c) in
   (if opt_eqb cond_eqb m (f_ast c) then [] else [1%nat]) ++
+  match m, f_ast c with
+  | Some am, Some _ =>
+      if forallb (fun e => opt_eqb Bool.eqb (eval am (fst e)) (snd e)) (f_evals c) then [] else [8%nat]
+  | _, _ => []
+  end ++
   match f_ast c with
   | None => []
   | Some a =>
